@@ -13,8 +13,14 @@ open Katib
 
 def c07jCreates (trialNs specNs owner : String) : Bool := specNs == trialNs && owner != "controller"
 
+/-- a Trial under deletion (whatever other finalizers it holds, completed or not): its rows are removed from the metrics
+    database and then the katib finalizer is released; when the database call fails nothing is released and nothing removed.
+    Rows of other Trials stay. -/
+def c07jFinalizer (dbFail : Bool) : String := if dbFail then "released=0 rows=7 other=2" else "released=1 rows=0 other=2"
+
 def handleC07J (toks : List String) : String :=
   match toks with
+  | ["finalizer", _extra, dbFail, _completed] => c07jFinalizer (dbFail == "1")
   | [tns, sns, name, owner] =>
     if c07jCreates tns sns owner then s!"errs=0 jobs={tns}/{name}:1:1:1" else "errs=1 jobs=-"
   | _ => "bad-op"
@@ -23,6 +29,11 @@ def handleC07J (toks : List String) : String :=
 def oracleLineC07J (toks out : List String) : String :=
   if out == ["panic"] then "fail reconcile-crashed" else
   match toks with
+  | ["finalizer", _, _, _] =>
+    let get (k : String) : String := ((out.find? (·.startsWith (k ++ "="))).map (fun x => (x.drop (k.length + 1)).toString)).getD ""
+    if get "released" == "1" && get "rows" != "0" then "fail finalizer-released-with-observation-logs-left-in-the-database"
+    else if get "other" != "2" then "fail observation-logs-of-another-trial-removed"
+    else "pass"
   | [tns, _sns, name, _owner] =>
     let get (k : String) : String := ((out.find? (·.startsWith (k ++ "="))).map (fun x => (x.drop (k.length + 1)).toString)).getD ""
     let jobs := if get "jobs" == "-" || get "jobs" == "" then [] else (get "jobs").splitOn ","
